@@ -389,7 +389,7 @@ Proof.
   { unfold w4. destruct (b_place (w_bot w3) =? 0); [|exact J3]. unfold Jw. rewrite bot_make_calls. exact J3. }
   set (w5 := upd_bot w4 _).
   assert (J5 : Jw w5) by exact J4.
-  destruct (N_of w5 <=? b_place (w_bot w5)); [|exact J5].
+  destruct (Nat.min _ (N_of w5) <=? b_place (w_bot w5)); [|exact J5].
   apply start_next_row_J. exact J5.
 Qed.
 
@@ -764,7 +764,7 @@ Proof.
   assert (E4 : obells w4 = obells w3).
   { unfold w4. destruct (b_place (w_bot w3) =? 0); [apply obells_make_calls | reflexivity]. }
   set (w5 := upd_bot w4 _).
-  destruct (N_of w5 <=? b_place (w_bot w5)); [rewrite obells_start_next_row|]; exact E4.
+  destruct (Nat.min _ (N_of w5) <=? b_place (w_bot w5)); [rewrite obells_start_next_row|]; exact E4.
 Qed.
 
 (* the bell and the ownership a tick acts on are those sampled when the tick begins *)
@@ -795,7 +795,7 @@ Qed.
 (* places advance one at a time within a row, so with C01 no bell is struck twice for one row *)
 Theorem tick_end_advances w bell uc :
   let w' := fst (tick_end w bell uc) in
-  (N_of w <=? S (b_place (w_bot w))) = false ->
+  (Nat.min (length (b_row (w_bot w))) (N_of w) <=? S (b_place (w_bot w))) = false ->
   b_place (w_bot w') = S (b_place (w_bot w)) /\ b_row_number (w_bot w') = b_row_number (w_bot w)
   /\ b_row (w_bot w') = b_row (w_bot w).
 Proof.
@@ -811,7 +811,7 @@ Proof.
     rewrite bot_make_calls, tower_make_calls. auto. }
   destruct B4 as [B4 T4].
   set (w5 := upd_bot w4 _). intros Hn.
-  assert (E : (N_of w5 <=? b_place (w_bot w5)) = false).
+  assert (E : (Nat.min (length (b_row (w_bot w5))) (N_of w5) <=? b_place (w_bot w5)) = false).
   { unfold w5, N_of. cbn. rewrite T4, B4. exact Hn. }
   rewrite E. cbn [fst hok]. unfold w5. cbn. rewrite B4. auto.
 Qed.
@@ -855,4 +855,70 @@ Proof.
     destruct (regr_of (w_rhythm w)) as [g|] eqn:R; [|right; right; now rewrite R].
     destruct (r_start g) eqn:S; [right; right; rewrite R, S; discriminate|].
     apply IH.
+Qed.
+
+(* ------------------------------------------------------------------ C10: what can kill the main loop *)
+(* the next tick finds its bell whenever the row did not turn over *)
+Lemma no_turnover_keeps_index w bell uc :
+  (Nat.min (length (b_row (w_bot w))) (N_of w) <=? S (b_place (w_bot w))) = false ->
+  nth_error (b_row (w_bot (fst (tick_end w bell uc)))) (b_place (w_bot (fst (tick_end w bell uc)))) <> None.
+Proof.
+  intros H. destruct (tick_end_advances w bell uc H) as [A [_ C]]. rewrite A, C.
+  apply Nat.leb_gt in H. apply nth_error_Some. lia.
+Qed.
+
+(* every exception that can escape a tick (and so end main_loop) has one of three sources: the row
+   has no bell at the current place; the start-stroke assertion; the row generator *)
+Lemma start_next_row_failure w f w' e :
+  start_next_row w f = (w', Some e) ->
+  snr_args w f = Err e \/ exists g st, gen_next g st = Err e.
+Proof.
+  unfold start_next_row, snr_args.
+  destruct (snr_ctl _ _ _ _ _ _) as [[k act]|e0]; [|intros H; inversion H; subst; now left].
+  set (w3 := match act with Start _ => _ | NoStart => _ end).
+  destruct (negb (b_ringing (w_bot w3))); [discriminate|].
+  unfold generate_next_row.
+  destruct (b_opening_flag (w_bot w3)); [cbn; discriminate|].
+  destruct (b_rounds_flag (w_bot w3)); [cbn; discriminate|].
+  destruct (gen_next _ _) as [[g' [r cs]]|e1] eqn:G; cbn [hthen hok]; [discriminate|].
+  intros H; inversion H; subst. right. eauto.
+Qed.
+
+Theorem tick_failure_sources fuel w w' e :
+  tick fuel w = (w', Some e) ->
+  (nth_error (b_row (w_bot w)) (b_place (w_bot w)) = None /\ e = EIndex)
+  \/ (exists w1, snr_args w1 false = Err e)
+  \/ (exists g st, gen_next g st = Err e).
+Proof.
+  unfold tick. destruct (nth_error (b_row (w_bot w)) (b_place (w_bot w))) as [bell|] eqn:N.
+  2:{ intros H; inversion H; subst. left. auto. }
+  unfold tick_end.
+  match goal with |- context [if ?c then start_next_row ?x false else _] => destruct c; [|discriminate];
+    intros H; destruct (start_next_row_failure x false w' e H) as [A|A]; [right; left; eauto | right; right; exact A] end.
+Qed.
+
+(* with C06's invariant the assertion is excluded, so only an empty place or the generator remain *)
+Corollary tick_failure_sources_J fuel w w' e :
+  Jw w -> tick fuel w = (w', Some e) ->
+  (nth_error (b_row (w_bot w)) (b_place (w_bot w)) = None /\ e = EIndex)
+  \/ (exists g st, gen_next g st = Err e).
+Proof.
+  intros HJ. unfold tick. destruct (nth_error (b_row (w_bot w)) (b_place (w_bot w))) as [bell|] eqn:N.
+  2:{ intros H; inversion H; subst. left. auto. }
+  set (w2 := rhythm_wait _ _ _ _ _ _ _).
+  assert (J2 : Jw w2) by (apply rhythm_wait_J; exact HJ).
+  unfold tick_end.
+  set (w3 := if user_assigned w bell then w2 else _).
+  assert (J3 : Jw w3).
+  { unfold w3. destruct (user_assigned w bell); [exact J2|].
+    destruct (tw_get_stroke (w_tower w2) bell) as [s|]; [|exact J2].
+    destruct (Bool.eqb s _); [|exact J2]. unfold Jw. rewrite bot_emit_bell. exact J2. }
+  set (w4 := if b_place (w_bot w3) =? 0 then _ else w3).
+  assert (J4 : Jw w4).
+  { unfold w4. destruct (b_place (w_bot w3) =? 0); [|exact J3]. unfold Jw. rewrite bot_make_calls. exact J3. }
+  set (w5 := upd_bot w4 _).
+  assert (J5 : Jw w5) by exact J4.
+  destruct (_ <=? _); [|discriminate].
+  intros H. destruct (start_next_row_failure w5 false w' e H) as [A|A]; [|right; exact A].
+  destruct (start_next_row_J w5 J5) as [[k [act E]] _]. congruence.
 Qed.
